@@ -291,11 +291,11 @@ Definition step (t : table) (o : top) : res :=
   | Unmerge r c => unmerge t r c
   end.
 
-(* the state after a call, as the implementation leaves it (only MergeRange can fail half-way) *)
+(* the state after a call, as the implementation leaves it: a call that is refused leaves the table as it was (the
+   range merge, which works in several steps, restores the rows when a step fails) *)
 Definition state_after (t : table) (o : top) : option table :=
   match o, step t o with
   | _, Ok t' => Some t'
-  | MergeRange r1 r2 c1 c2, Err => Some (snd (merge_range t r1 r2 c1 c2))
   | _, Err => Some t
   | _, Panic => None
   end.
